@@ -863,7 +863,12 @@ where
                     drop(old);
                     format!("rcu-succeeded tries={}", tries)
                 }
-                Err(_) => {
+                Err(p) => {
+                    if tries != *at {
+                        // not the closure: a pointee destructor panicked inside the call (the
+                        // exchange may well have happened already) — classified by `run_one`
+                        std::panic::resume_unwind(p);
+                    }
                     // a panic in the closure changes nothing: this call wrote nothing
                     if names(|n| n.last_write.get(&w).is_some()) {
                         violation(format!("panic-consistency: rcu on c{} by t{} wrote although its closure panicked", c, w));
